@@ -197,6 +197,7 @@ def c20_rf21(run):
     rf_mir2c.rf139(run)
     rf_mir2c.rf156(run)
     rf_mir2c.rf167(run)
+    rf_mir2c.rf175(run)
     rf_vocab.rf118(run, True)
     rf_proto.rf117(run)
     rf_mir2c.rf112(run)
@@ -224,6 +225,7 @@ def c11_vocab(run):
     rf_vocab.rf85b(run)
     rf_vocab.rf115(run)
     rf_vocab.rf121(run)
+    rf_vocab.rf176(run)
     rf_vocab.rf129(run)
 
 
